@@ -329,9 +329,11 @@ func New(cfg Config) (*Rig, error) {
 		ss.Set(config.HeartBtInt, strconv.Itoa(hb))
 		ss.Set(config.SocketConnectHost, "127.0.0.1")
 		ss.Set(config.SocketConnectPort, "1")
-		// the logon/logout timeouts are delivered by the harness, not by the wall clock
-		ss.Set(config.LogonTimeout, "3600")
-		ss.Set(config.LogoutTimeout, "3600")
+		// the logon/logout timeouts are delivered by the harness, not by the wall clock: the engine's
+		// own AfterFunc events land in a channel nobody reads; a short value only bounds how long the
+		// pending closure pins a closed session in memory
+		ss.Set(config.LogonTimeout, "1")
+		ss.Set(config.LogoutTimeout, "1")
 	}
 	if cfg.ID.BeginString == quickfix.BeginStringFIXT11 {
 		ss.Set(config.DefaultApplVerID, "FIX.5.0SP2")
